@@ -58,6 +58,11 @@ func (c cache) Unpack(
 	if strings.ContainsAny(wareID.Hash, "/\x00") || wareID.Hash == "." || wareID.Hash == ".." {
 		return api.WareID{}, Errorf(rio.ErrUsage, "invalid ware ID %q: the hash must be a single path segment", wareID)
 	}
+	//  '+' is in no hash alphabet, and it is what marks the shelf of a filtered tree (see populate): a request
+	//  spelled like such a shelf must not be answered with it.
+	if strings.Contains(wareID.Hash, "+") {
+		return api.WareID{}, Errorf(rio.ErrUsage, "invalid ware ID %q: '+' cannot appear in a hash", wareID)
+	}
 
 	// ... and wherever something gets placed, the destination has to be an absolute path.
 	if placementMode != rio.Placement_None && !filepath.IsAbs(path) {
